@@ -67,6 +67,7 @@ func verifHarness_C02_routing() {
 	verifConfig("preempt", verifParam("preempt", 0))
 	verifConfig("maporder", verifParam("maporder", 0))
 	e := rtNewEnv(nSrc, nTgt)
+	e.identities = verifParam("identities", 0) == 1
 	e.lateFrom = nTgt
 	if late > 0 {
 		e.lateFrom = nTgt - 1
